@@ -482,7 +482,9 @@ def gen_spec(rng, flavour="valid"):
             for an in present:
                 atoms.append([ch, rid, ins, rn, het, an, rng.choice(_ELEMENTS), rng.randint(-2, 2) if rng.random() < 0.4 else 0, 0])
             r = rng.random()
-            rid += 1 if r < 0.7 else (0 if r < 0.8 else rng.randint(2, 5))
+            # numbering: +1, same id (next residue gets another insertion code), forward jump, or DOWNWARDS
+            # (20 -> 19, 18 -> 4: legal; the reader links consecutive residues by position unless the id grows by > 1)
+            rid += 1 if r < 0.6 else (0 if r < 0.72 else (rng.randint(2, 5) if r < 0.86 else -rng.choice([1, 1, 2, 14])))
     n = len(atoms)
     ids = rng.sample(range(1, 10 * n + 10), n)
     for i, a in enumerate(atoms):
@@ -819,6 +821,50 @@ def _pep(n_res, names=("N", "CA", "C", "O"), rn=("ALA", "GLY")):
     return atoms
 
 
+def large_case():
+    """2001 one-atom residues, 2000 inter-residue bonds all starting at the FIRST atom: 2000 x 2001 row pairs exceed
+    FIND_MATCHES_SWITCH_THRESHOLD, so get_structure uses _find_matches_by_dict (oracle only, BinaryCIF)."""
+    return {"kind": "large-dict", "ops": [], "n": 2001}
+
+
+def _oracle_large(case):
+    import warnings
+    import numpy as np
+    _setup()
+    import biotite.structure as struc
+    from biotite.structure.io import pdbx
+    from biotite.structure.io.pdbx import convert as conv
+    n = case["n"]
+    arr = struc.AtomArray(n)
+    arr.chain_id[:] = "A"
+    arr.res_id = np.arange(1, n + 1)
+    arr.res_name[:] = "LG1"
+    arr.atom_name[:] = "X1"
+    arr.element[:] = "C"
+    arr.hetero[:] = True
+    arr.coord = np.zeros((n, 3), dtype=np.float32)
+    bonds = np.array([[0, k, 1 + (k % 4)] for k in range(1, n)], dtype=np.int64)
+    arr.bonds = struc.BondList(n, bonds)
+    v = []
+    if (n - 1) * n <= conv.FIND_MATCHES_SWITCH_THRESHOLD:
+        v.append(("C04/oracle/large-case-too-small", f"{(n - 1) * n} row pairs do not exceed FIND_MATCHES_SWITCH_THRESHOLD"))
+    with warnings.catch_warnings():
+        warnings.simplefilter("ignore")
+        f = pdbx.BinaryCIFFile()
+        pdbx.set_structure(f, arr, include_bonds=True)
+        buf = io.BytesIO()
+        f.write(buf)
+        buf.seek(0)
+        back = pdbx.get_structure(pdbx.BinaryCIFFile.read(buf), model=1, include_bonds=True)
+    bi = {(int(b[0]), int(b[1])): int(b[2]) for b in arr.bonds.as_array()}
+    bo = {(int(b[0]), int(b[1])): int(b[2]) for b in back.bonds.as_array()}
+    if bi != bo:
+        lost = sorted(set(bi) - set(bo))
+        v.append(("C04/bonds/large/struct_conn-dict-matcher", f"{len(bi)} bonds written, {len(bo)} read; lost e.g. {lost[:3]}, "
+                  f"changed {[k for k in bi if k in bo and bi[k] != bo[k]][:3]}"))
+    return v
+
+
 def corpus():
     import random
     rng = random.Random(4)
@@ -838,6 +884,10 @@ def corpus():
     out.append(_struct_case(rng, _mini(pep, bb + [[i(0, "O"), i(3, "N"), 2], [i(1, "O"), i(4, "CA"), 3], [i(1, "CA"), i(5, "CA"), 4], [i(0, "N"), i(2, "O"), 8]]), "struct"))
     lig = [["A", 1, "", "LG1", True, "FE", "FE"], ["A", 1, "", "LG1", True, "N1", "N"], ["A", 1, "", "LG1", True, "C1", "C"], ["A", 2, "", "LG1", True, "FE", "FE"], ["A", 2, "", "LG1", True, "N1", "N"], ["A", 2, "", "LG1", True, "C1", "C"]]
     out.append(_struct_case(rng, _mini(lig, [[0, 1, 8], [1, 2, 9], [4, 5, 9], [2, 3, 1]]), "struct"))
+    # backbone links between residues numbered downwards (20 -> 19 -> 5) and with equal ids + insertion codes
+    down = [a[:1] + [{1: 20, 2: 19, 3: 5, 4: 5, 5: 5, 6: 4}[a[1]], {4: "A", 5: "B"}.get(a[1], "")] + a[3:] for a in pep]
+    out.append(_struct_case(rng, _mini(down, bb), "struct"))
+    out.append(large_case())
     # the known limits of struct_conn
     out.append(_struct_case(rng, _mini(pep, bb + [[i(0, "O"), i(3, "N"), 9]]), "struct-limit"))
     return out
@@ -1123,10 +1173,13 @@ def run_impl(case):
 FORMATS = ("cif", "bcif", "cbcif")
 
 
-def _roundtrip(arr, fmt, spec, **read_kw):
+def _roundtrip(arr, fmt, spec, fields=None, **read_kw):
+    """`fields`: the caller's extra_fields list object, deliberately the SAME object for every read of a case."""
     from biotite.structure.io import pdbx
     incl = arr.bonds is not None
     extra = sorted(spec.get("extra") or {})
+    if fields is None:
+        fields = _extra_fields(spec)
     if fmt == "cif":
         f = pdbx.CIFFile()
         pdbx.set_structure(f, arr, include_bonds=incl, extra_fields=extra)
@@ -1143,7 +1196,7 @@ def _roundtrip(arr, fmt, spec, **read_kw):
         f.write(buf)
         buf.seek(0)
         g = pdbx.BinaryCIFFile.read(buf)
-    return pdbx.get_structure(g, extra_fields=_extra_fields(spec), include_bonds=incl, **read_kw)
+    return pdbx.get_structure(g, extra_fields=fields, include_bonds=incl, **read_kw)
 
 
 def _bond_key(kind, spec, b_in, b_out):
@@ -1236,9 +1289,14 @@ def _oracle_struct(case):
             return [] if expect else [("C04/oracle/build", f"cannot build the structure: {e!r}")]
         m = len(spec["coords"])
         results = {}
+        # ONE list object for all reads of this case: get_structure must not modify its arguments
+        fields = _extra_fields(spec)
+        fields_before = list(fields)
+        write_extra = sorted(spec.get("extra") or {})
+        arr_cats = sorted(arr.get_annotation_categories())
         for fmt in FORMATS:
             try:
-                back = _roundtrip(arr, fmt, spec, model=None if spec["stack"] else 1)
+                back = _roundtrip(arr, fmt, spec, fields, model=None if spec["stack"] else 1)
             except Exception as e:  # noqa: BLE001
                 if expect and (type(e).__name__ in expect):
                     continue
@@ -1248,7 +1306,15 @@ def _oracle_struct(case):
                 v.append((f"C04/malformed-accepted/{expect}", f"{fmt}: expected {expect}, but the structure was written"))
                 continue
             results[fmt] = back
+            if fields != fields_before:
+                v.append(("C04/args-mutated/get_structure-extra_fields",
+                          f"{fmt}: get_structure changed the caller's extra_fields list {fields_before} -> {fields}"))
+                fields[:] = fields_before
+            if sorted(arr.get_annotation_categories()) != arr_cats or sorted(spec.get("extra") or {}) != write_extra:
+                v.append(("C04/args-mutated/set_structure", f"{fmt}: set_structure changed its arguments"))
             v += _compare(spec, arr, back, fmt, spec["stack"], "all")
+        if fields != fields_before:
+            v.append(("C04/args-mutated/get_structure-extra_fields", f"extra_fields list {fields_before} -> {fields}"))
         # text == binary (== compressed up to tolerance)
         if "cif" in results and "bcif" in results:
             a, b = results["cif"], results["bcif"]
@@ -1261,12 +1327,15 @@ def _oracle_struct(case):
             for fmt in ("cif", "bcif"):
                 for k in list(range(1, m + 1)) + list(range(-m, 0)):
                     try:
-                        one = _roundtrip(arr, fmt, spec, model=k)
+                        one = _roundtrip(arr, fmt, spec, fields, model=k)
                     except Exception as e:  # noqa: BLE001
                         v.append(("C04/model-select/error", f"{fmt}: model={k} of {m} raised {type(e).__name__}"))
                         continue
                     ref = arr[k - 1] if k > 0 else arr[m + k]
                     v += _compare(spec, ref, one, fmt, False, "model")
+                if fields != fields_before:
+                    v.append(("C04/args-mutated/get_structure-extra_fields", f"{fmt}: extra_fields list {fields_before} -> {fields}"))
+                    fields[:] = fields_before
                 for k in (0, m + 1, -m - 1, -m - 2):
                     try:
                         one = _roundtrip(arr, fmt, spec, model=k)
@@ -1372,6 +1441,8 @@ def oracle(case):
         return _oracle_altloc(case)
     if k == "models":
         return _oracle_models(case)
+    if k == "large-dict":
+        return _oracle_large(case)
     return []
 
 
